@@ -3,6 +3,7 @@ import Pko.Model.Archive
 import Pko.Model.ArchiveSpec
 import Pko.Model.ArchiveHist
 import Pko.Drv.HistCommon
+import Pko.Drv.C08Sys
 /-! Line driver for C08 (a).
 
 * stream `decide` (scenario = one pass): `model` prints the ordered client writes of one pass of the
@@ -31,12 +32,16 @@ structure Scn where
 inductive AnyScn where
   | one (s : Scn)
   | hist (h : HistScn)
+  | sys (s : Pko.Drv.SysCommon.Scn)     -- stream `handover` (scenario of the system harness: has `steps`)
 
 instance : FromJson AnyScn where
   fromJson? j :=
     match j.getObjVal? "ops" with
     | .ok _ => AnyScn.hist <$> fromJson? j
-    | .error _ => AnyScn.one <$> fromJson? j
+    | .error _ =>
+      match j.getObjVal? "steps" with
+      | .ok _ => AnyScn.sys <$> fromJson? j
+      | .error _ => AnyScn.one <$> fromJson? j
 
 def toInput (s : Scn) : Input :=
   { ctrl := s.via == "ctrl", revs := toRevs s.revs, hasCur := s.cur, odPaused := s.odp,
@@ -48,6 +53,7 @@ def outStr (o : List Write × Bool) : String :=
 def model : AnyScn → String
   | .one s => outStr (run (toInput s))
   | .hist h => histModel h
+  | .sys s => Pko.Drv.SysCommon.model s
 
 def parseOut (out : String) : Option (List Write) :=
   match out.splitOn ";" with
@@ -66,6 +72,7 @@ def monitor (s : AnyScn) (out : String) : String :=
     | none => s!"bad parse out={out.take 80}"
     | some ws => Pko.Model.ArchiveSpec.verdict (toInput s) ws
   | .hist h => judgeTrace out (passVerdict h.fin)
+  | .sys s => Pko.Drv.C08Sys.monitor s out
 
 end Pko.Drv.C08
 
